@@ -271,6 +271,9 @@ def token_case(rng, seed):
         # NOT run the execution - the token names the reply queue of the one that does
         cfg.update(store="redis", nodes=2)
         api_node = 1
+    # the second task's own callback normally comes at t=5; with two instances it may instead arrive at the very instant
+    # of the first task's (t=3), through the same front end, for a task that another instance may own
+    t2_at = 3.0 if (api_node == 1 and stream in ("valid", "failure", "other-token") and rng.random() < 0.6) else 5.0
     if flavour == "rpc":
         task = {"Type": "Task", "Resource": "arn:aws:states:local::rpcmessage:invoke.waitForTaskToken",
                 "Parameters": {"FunctionName": F + "cb", "Payload": {"token.$": "$$.Task.Token", "k.$": "$.k"}},
@@ -302,7 +305,10 @@ def token_case(rng, seed):
            "executions": [{"machine": "tok", "input": {"k": 3}, "name": "t1"},
                           {"machine": "tok", "input": {"k": 4}, "name": "t2"}],
            "script": script, "functions": ["cb"], "config": cfg}
-    meta = dict(flavour=flavour, stream=stream, policy=policy, exact=cfg["latency"] == "zero", api_node=api_node)
+    if t2_at != 5.0:
+        for k, ex in enumerate(scn["executions"]):
+            ex["node"] = k          # started through different instances (the shared queue decides who runs them)
+    meta = dict(flavour=flavour, stream=stream, policy=policy, exact=cfg["latency"] == "zero", api_node=api_node, t2_at=t2_at)
     return scn, meta
 
 
@@ -362,7 +368,7 @@ def check_token(scn, meta, seed):
             sim.call_at(t0 + 3.0, send("SendTaskSuccess", lambda t: (t.get(3) or "")[:10] or None, {"output": ok_out}, "truncated"),
                         None, kind="client", label="cb")
         # the second execution is always completed by its own valid token at t=5 (other tokens must not affect it)
-        sim.call_at(t0 + 5.0, send("SendTaskSuccess", second, {"output": json.dumps({"answer": "second"})}, "valid2"),
+        sim.call_at(t0 + meta.get("t2_at", 5.0), send("SendTaskSuccess", second, {"output": json.dumps({"answer": "second"})}, "valid2"),
                     None, kind="client", label="cbB")
     mons = [NotifyMonitor(PROP, check_shape=False), BrokerMonitor(carrier=False)]
     res = run_scenario(scn, seed, monitors=mons, before_run=before, horizon=1500)
@@ -391,8 +397,9 @@ def check_token(scn, meta, seed):
     elif d2 is None or d2["status"] != "SUCCEEDED" or (jl(d2["output"]) or {}).get("cb") != {"answer": "second"}:
         add(findings, "token-affected-other-task", "second task (own valid token at t=5) ended %r" % (
             d2 and (d2["status"], d2.get("output"), d2.get("error")),), witness=stream)
-    elif meta["exact"] and abs(t2 - (t0 + 5.0)) > TOL:
-        add(findings, "callback-completion-instant", "second task completed at %.3f, callback at 5.000" % (t2 - t0), witness=stream)
+    elif meta["exact"] and abs(t2 - (t0 + meta.get("t2_at", 5.0))) > TOL:
+        add(findings, "callback-completion-instant", "second task completed at %.3f, callback at %.3f" % (
+            t2 - t0, meta.get("t2_at", 5.0)), witness=stream)
     by = dict((lbl, rec) for lbl, rec in calls)
     if d1 is None:
         add(findings, "never-terminal", "first execution never ended (%s)" % stream, witness=stream)
